@@ -18,6 +18,8 @@ mod serde;
 pub mod str;
 pub mod types;
 pub mod value;
+#[cfg(feature = "verif")]
+pub mod verif;
 mod witness;
 
 use std::sync::Arc;
